@@ -529,7 +529,10 @@ int main(int argc, char** argv)
       { std::lock_guard<std::mutex> l(s_mx); fin = s_stop_done; }
       long wl, wyl;
       { std::lock_guard<std::recursive_mutex> lk(shim::g_mx); wl = s_wloads; wyl = s_wyloads; }
-      emit("{\"e\":\"bstep\",\"wloads\":" + std::to_string(wl) + ",\"wyloads\":" + std::to_string(wyl) + ",\"finished\":" + (fin ? "true" : "false") + "}");
+      // (the backend is parked or has ended: its cache and the counters can be read)
+      emit("{\"e\":\"bstep\",\"wloads\":" + std::to_string(wl) + ",\"wyloads\":" + std::to_string(wyl) + ",\"finished\":" + (fin ? "true" : "false") +
+           ",\"cache\":" + std::to_string(cache_size()) + ",\"delivered_y\":" + std::to_string(g_delivered_y.load()) + ",\"ycommitted\":" +
+           std::to_string(Y.committed) + "}");
       if (fin)
         emit("{\"e\":\"stopped\",\"delivered\":" + std::to_string(g_delivered.load() - g_delivered_y.load()) + ",\"delivered_y\":" +
              std::to_string(g_delivered_y.load()) + ",\"committed\":" + std::to_string(X.committed) + "}");
